@@ -33,6 +33,12 @@ StaticVerdict(ev) ==
         sem1(s) == Sem(m1, ev.p1, s) sem2(s) == Sem(m2, ev.p2, s)
         ok == CASE ev.op = "for_each1"  -> SeqToBag(ev.visits) = SeqToBag(ev.p1)
                 [] ev.op = "for_each2"  -> SeqToBag(ev.visits) = SeqToBag([s \in 1..n |-> <<sem1(s), sem2(s)>>])
+                \* the functor returned by static_for_each has made exactly one visit per channel (2 overloads with 1 colour base, 4 with 2, 8 with 3)
+                [] ev.op = "for_each_ret" -> LET s1 == SumSeq(ev.p1)  s2 == SumSeq(ev.p2)  s3 == SumSeq(ev.p3) IN
+                                             /\ \A i \in 1..14 : ev.counts[i] = n
+                                             /\ \A i \in 1..2 : ev.sums[i] = s1
+                                             /\ \A i \in 3..6 : ev.sums[i] = s1 + s2
+                                             /\ \A i \in 7..14 : ev.sums[i] = s1 + s2 + s3
                 [] ev.op = "transform1" -> \A s \in 1..n : Sem(m2, ev.out, s) = sem1(s) + 1
                 [] ev.op = "transform2" -> \A s \in 1..n : Sem(m3, ev.out, s) = sem1(s) + 2 * sem2(s)
                 [] ev.op = "copy"       -> P_Assigned(m1, ev.p1, m2, ev.out)
